@@ -280,6 +280,92 @@ pub fn apply<E: Elem>(t: &mut TooDee<E>, m: &mut Model<u32>, act: &Act, c: &mut 
             }
             res
         }
+        "rrx" | "rcx" => {
+            // remove a line and consume the drain through nth / adaptors built on nth (mode a[1])
+            let row = act.op == "rrx";
+            let (i, mode) = (a[0], a[1]);
+            let dim = if row { mr } else { mc };
+            let expect: Option<Vec<u32>> = if i < dim { Some(if row { m.remove_row(i) } else { m.remove_col(i) }) } else { None };
+            let mut got: Vec<u32> = Vec::new();
+            let mut count: Option<usize> = None;
+            let res = guarded(|| {
+                let mut held: Vec<E> = Vec::new();
+                macro_rules! consume {
+                    ($d:expr) => {{
+                        let mut d = $d;
+                        match mode {
+                            0 => held.extend(d.nth(1)),
+                            1 => held.extend(d.nth_back(1)),
+                            2 => held.extend(d.by_ref().skip(1).step_by(2)),
+                            3 => held.extend(d.by_ref().rev().skip(1)),
+                            4 => held.extend(d.by_ref().last()),
+                            _ => count = Some(d.by_ref().count()),
+                        }
+                        drop(d);
+                    }};
+                }
+                if row {
+                    consume!(t.remove_row(i))
+                } else {
+                    consume!(t.remove_col(i))
+                }
+                got = held.iter().map(|e| e.label()).collect();
+                drop(held);
+            });
+            if let (Ok(()), Some(line)) = (&res, &expect) {
+                let n = line.len();
+                let want: Vec<u32> = match mode {
+                    0 => line.get(1).copied().into_iter().collect(),
+                    1 => if n >= 2 { vec![line[n - 2]] } else { Vec::new() },
+                    2 => line.iter().skip(1).step_by(2).copied().collect(),
+                    3 => line.iter().rev().skip(1).copied().collect(),
+                    4 => line.last().copied().into_iter().collect(),
+                    _ => Vec::new(),
+                };
+                if !E::ZST && got != want {
+                    c.fail("drain:items", format!("{}: consumption mode {} yielded {:?}, expected {:?}", act.enc(), mode, got, want));
+                }
+                if mode == 5 && count != Some(n) {
+                    c.fail("drain:len", format!("{}: count() = {:?}, expected {}", act.enc(), count, n));
+                }
+            }
+            if res.is_ok() && expect.is_none() {
+                c.fail("drain:accepts-bad-index", format!("{}: index {} out of range ({}), yet the call returned", act.enc(), i, dim));
+            }
+            res
+        }
+        "lr" | "lc" => {
+            // take f from the front and b from the back of the drain, then LEAK it (mem::forget).
+            // The property allows the array to lose elements; its state afterwards is read back.
+            let row = act.op == "lr";
+            let (i, f, b) = (a[0], a[1], a[2]);
+            let res = guarded(|| {
+                let mut held: Vec<E> = Vec::new();
+                macro_rules! leak {
+                    ($d:expr) => {{
+                        let mut d = $d;
+                        for _ in 0..f {
+                            held.extend(d.next());
+                        }
+                        for _ in 0..b {
+                            held.extend(d.next_back());
+                        }
+                        std::mem::forget(d);
+                    }};
+                }
+                if row {
+                    leak!(t.remove_row(i))
+                } else {
+                    leak!(t.remove_col(i))
+                }
+                drop(held);
+            });
+            let (nc, nr) = (t.num_cols(), t.num_rows());
+            if nc.checked_mul(nr) == Some(t.data().len()) && (nc == 0) == (nr == 0) {
+                *m = Model::from_flat(nc, nr, &t.data().iter().map(|e| e.label()).collect::<Vec<_>>());
+            }
+            res
+        }
         "clr" => {
             m.clear();
             guarded(|| t.clear())
@@ -393,7 +479,7 @@ pub fn apply<E: Elem>(t: &mut TooDee<E>, m: &mut Model<u32>, act: &Act, c: &mut 
 }
 
 /// The alphabet enabled in a state of shape (c, r).
-pub fn actions(c: usize, r: usize, copy: bool) -> Vec<Act> {
+pub fn actions(c: usize, r: usize, copy: bool, leaks: bool) -> Vec<Act> {
     let mut v: Vec<Act> = Vec::new();
     for i in 0..=r + 1 {
         for n in 0..=c + 1 {
@@ -443,6 +529,24 @@ pub fn actions(c: usize, r: usize, copy: bool) -> Vec<Act> {
     }
     for (f, b) in splits(r) {
         v.push(Act::new("qc", &[f, b]));
+    }
+    if leaks {
+        for i in 0..r {
+            for mode in 0..6 {
+                v.push(Act::new("rrx", &[i, mode]));
+            }
+            for (f, b) in splits(c) {
+                v.push(Act::new("lr", &[i, f, b]));
+            }
+        }
+        for i in 0..c {
+            for mode in 0..6 {
+                v.push(Act::new("rcx", &[i, mode]));
+            }
+            for (f, b) in splits(r) {
+                v.push(Act::new("lc", &[i, f, b]));
+            }
+        }
     }
     v.push(Act::new("clr", &[]));
     v.push(Act::new("sd", &[]));
@@ -630,7 +734,7 @@ fn run_terminal<E: Elem>(t: TooDee<E>, m: &Model<u32>, act: &Act, c: &mut Case) 
 pub fn expand<E: Elem>(key: &str, ctx: &mut Ctx, bounds: &Bounds, with_terminals: bool) {
     let (tag, sc, sr, labels) = parse_key(key);
     debug_assert_eq!(tag, tag_of::<E>());
-    let acts = actions(sc, sr, !E::TRACKED);
+    let acts = actions(sc, sr, !E::TRACKED, with_terminals);
     for act in acts.iter() {
         for cap in ['x', 's'] {
             let mut act = act.clone();
@@ -643,18 +747,19 @@ pub fn expand<E: Elem>(key: &str, ctx: &mut Ctx, bounds: &Bounds, with_terminals
                     let mut t: TooDee<E> = materialize(sc, sr, &labels, cap == 's');
                     let mut m = model_of(sc, sr, &labels);
                     let panicked = apply(&mut t, &mut m, &act, c);
-                    c.outcome(if panicked { "rejected" } else { "accepted" });
+                    let leaky = act.op == "lr" || act.op == "lc";
+                    c.outcome(if panicked { "rejected" } else if leaky { "leaked" } else { "accepted" });
                     if !panicked {
                         c.nontrivial((key, act.enc()));
                     }
                     let ok = check_state(&t, &m, c, &format!("after {}", act.enc()));
                     if ok {
-                        ledger_clean::<E>(c, &format!("after {}", act.enc()), (m.cols * m.rows) as u64, !panicked);
+                        ledger_clean::<E>(c, &format!("after {}", act.enc()), (m.cols * m.rows) as u64, !panicked && !leaky);
                         if m.cols * m.rows <= bounds.cells && m.cols <= bounds.dim && m.rows <= bounds.dim {
                             succ = Some(key_string(tag, m.cols, m.rows, &m.flat()));
                         }
                         drop(t);
-                        ledger_clean::<E>(c, &format!("after {} and drop of the array", act.enc()), 0, !panicked);
+                        ledger_clean::<E>(c, &format!("after {} and drop of the array", act.enc()), 0, !panicked && !leaky);
                     } else {
                         // the array is not trustworthy: do not run its destructor
                         std::mem::forget(t);
